@@ -44,7 +44,7 @@ SIG_PREFIXES = {
     "C13": ("conc:accounting:",),
     "C16": ("conc:listener:",),
 }
-WITNESSES = [os.path.join(VERIF, "findings", f) for f in ("cacheconc_capacity_policy_cost.case", "cacheconc_expiry.case")]
+WITNESSES = [os.path.join(VERIF, "findings", f) for f in ("cacheconc_capacity_policy_cost.case", "cacheconc_expiry.case", "cacheconc_async_clear_deadlock.case")]
 
 ASSUMPTIONS = [
     "cacheconc: each critical section (one shard map guard, one policy call, one atomic op on current_cost, one channel push/pop) is atomic: the tie yields only BETWEEN them (hook points), so interleavings inside a section and weak-memory effects of the Relaxed counter are not explored",
